@@ -145,7 +145,7 @@ func checkSeekTables(p *Program, r *Report) {
 						for i := 0; i < stt.NumFields(); i++ {
 							if b, ok := stt.Field(i).Type().Underlying().(*types.Basic); ok && b.Kind() == types.String {
 								nStr++
-								key = a_load(s.St, mk("field", nt.Obj().Name()+"."+stt.Field(i).Name(), nil, recv))
+								key = a_load(s.St, mk("field", nt.Obj().Name()+"."+fname(stt.Field(i)), nil, recv))
 							}
 						}
 						if nStr != 1 {
